@@ -39,6 +39,8 @@ AbstractParameterAliasable::AbstractParameterAliasable(const AbstractParameterAl
 AbstractParameterAliasable& AbstractParameterAliasable::operator=(const AbstractParameterAliasable& ap)
 {
   AbstractParametrizable::operator=(ap);
+  independentParameters_.reset();
+  aliasListenersRegister_.clear();
 
   for (size_t i = 0; i < ap.independentParameters_.size(); i++)
   {
